@@ -11,9 +11,8 @@ import CoxeterVerif.Props.C06
     may leave its plane, the stored normal becomes `R n`, Kabsch returns whatever frame it likes for the new
     normal — for every triangulated simple polygon and every point off the triangle edges
     (through `polygon_inside3_iff` of C06 and the invariance of `orient3`, `dot3`);
-  (Circle / Ellipse: `Lemmas/CovarianceCircle.lean`.)  This file imports `Props/C06`, whose chain framework
-  (`Lemmas/Winding2D.lean`) declares a root-level `EdgeChainEq` that clashes with the one of C04
-  (`Lemmas/Planar.lean`): it therefore cannot be imported into `Props/C09.lean` (which needs C02/C04).
+  (Circle / Ellipse: `Lemmas/CovarianceCircle.lean`.)  Imported by `Props/C09.lean` since the lead renamed C06's chain
+  framework (`EdgeChainEq2`, `OddEdge2`): it no longer clashes with C04's `EdgeChainEq`.
 -/
 open Scalar Inside2D Inside2D.Polygon Spec.In2D
 set_option maxRecDepth 4000
